@@ -48,12 +48,26 @@ def add_embeddings(rng, prog):
         a = rng.choice(secs)
         ops.append({'kind': 'op', 'op': 'AddGlobalEquation', 'name': 'tt', 'eqn': '1950. + k'})
         kinds.append('global-no-alias')
+    if len(secs) >= 2 and rng.random() < 0.5:
+        a, b = rng.sample(secs, 2)
+        ops.append({'kind': 'op', 'op': 'AddVariable', 'sector': a, 'name': 'BONUS', 'eqn': ''})
+        ops.append({'kind': 'op', 'op': 'AddTermToEq', 'sector': a, 'name': 'BONUS', 'term': '{%s:INC}*LAG_F' % b})
+        if rng.random() < 0.5:
+            ops.append({'kind': 'op', 'op': 'AddTermToEq', 'sector': a, 'name': 'BONUS', 'term': '-{%s:F}' % b})
+        kinds.append('product-term')
     if len(secs) >= 2 and rng.random() < 0.4:
         a, b = rng.sample(secs, 2)
         ops.append({'kind': 'op', 'op': 'AddCashFlow', 'sector': a, 'term': 'XFLOW', 'eqn': '0.01*{%s:INC}' % b, 'is_income': False})
         ops.append({'kind': 'op', 'op': 'AddCashFlow', 'sector': b, 'term': '-XFLOW', 'eqn': '0.01*INC', 'is_income': False})
         kinds.append('cash-flow-definition')
-    prog['steps'] = prog['steps'] + ops
+    steps = list(prog['steps'])
+    if rng.random() < 0.3:
+        # the public debug dump Model.LogInfo() called in the middle of construction
+        idx = [i for i, st in enumerate(steps) if st['kind'] == 'country']
+        pos = rng.choice(idx[1:] + [len([st for st in steps if st['kind'] != 'op'])]) if len(idx) > 0 else len(steps)
+        steps.insert(pos, {'kind': 'op', 'op': 'LogInfo'})
+        kinds.append('loginfo-mid-construction')
+    prog['steps'] = steps + ops
     prog['embeddings'] = kinds
     return prog
 
